@@ -86,6 +86,18 @@ def make_hamiltonian(ptn, rng, L, kind):
     raise ValueError(kind)
 
 
+def product_state_on(ptn, rng, psi):
+    """overwrite psi (all-zero charges) by a generic product state stored zero-padded in the same bond spaces (every bond has
+    Schmidt rank one although its dimension is larger)"""
+    if any(int(x) != 0 for x in psi.qd) or any(int(x) != 0 for q in psi.qD for x in q):
+        return False
+    for i in range(psi.nsites):
+        A = np.zeros_like(psi.A[i], dtype=complex)
+        A[:, 0, 0] = rng.normal(size=A.shape[0]) + 1j * rng.normal(size=A.shape[0])
+        psi.A[i] = A
+    return True
+
+
 def basis_state_on(ptn, rng, psi):
     """overwrite psi (given charges) by one computational basis state of its sector embedded in the same bond spaces"""
     L = psi.nsites
@@ -329,9 +341,11 @@ def record_dmrg(ptn, H, psi, alg, nsweeps, numiter, tol_split=0.0, tr=None, comp
         e_sector = sector_ground_energy(Hd, psi.qd, L, qtot)
         tolE = 1e-9 * scaleH
         varia = all(e >= e_sector - tolE for e in en) if e_sector is not None else True
-        below_start = all(e <= E_start + tolE for e in en)
+        below_start = all(e <= E_start + tolE for e in en) if tol_split == 0 else True
         mono = all(en[k + 1] <= en[k] + tolE for k in range(len(en) - 1)) if tol_split == 0 else True
-        consistent = abs(dense_energy(Hd, v1) - en[-1]) <= 1e-8 * scaleH if len(en) else True
+        # with a truncating split the state changes after the last local minimisation: consistency (like monotonicity and the
+        # start bound) is a statement about zero split tolerance
+        consistent = abs(dense_energy(Hd, v1) - en[-1]) <= 1e-8 * scaleH if (len(en) and tol_split == 0) else True
         exact = True
         if complete and not basis_start and numiter >= 25 and nsweeps >= 3 and e_sector is not None:
             exact = abs(en[-1] - e_sector) <= 1e-7 * scaleH
